@@ -602,3 +602,43 @@ PROPS["C01"] = {
           min_verified=15),
     ],
 }
+
+# =============================================================================== C14
+PROPS["C14"] = {
+    "level": "proof",
+    "explanation": "sink contracts on the verbatim send / receive paths of RtpTransport (Verus, one task's sequential reading): what reaches IceConn::{send, send_rtcp, try_send} is an output of SrtpSession::protect_* whenever srtp_required; what reaches the RTCP listener, the observers and the rewrite bridge is an output of a successful unprotect_* whenever srtp_required; nothing passes while no session exists",
+    "trusted_base": ["one task's sequential reading of async fns (interleaving at await points not modelled)",
+                     "ghost predicates is_srtp_output / authentic_rtp / authentic_bytes are established only by the assumed contracts of SrtpSession::protect_* / unprotect_* (Ok => ..)",
+                     "mandatory(conn) == srtp_required for a transport's own IceConn and for a bridge target's (RtpTransport::new stores both)",
+                     "parking_lot / tokio primitives (lock, Notify, mpsc) as opaque calls; diagnostic AtomicU64 counters assumed not to reach u64::MAX",
+                     "`&mut v[..]` read as `v.as_mut_slice()` (vstd's IndexMut<RangeFull> gives no relation to the vector)"],
+    "kani": [],
+    "verus": [
+        V("egress: only SRTP-protected octets reach the ICE connection when srtp_required (Verus)", "srtp_egress_gate", "quick", "proof",
+          ["RtpTransport::send", "RtpTransport::send_rtp", "RtpTransport::send_rtcp", "RtpTransport::send_rtcp_sync", "RtpTransport::try_bridge_rewrite_rtp", "RtpTransport::ice_conn"],
+          "verbatim text of the five send paths; the sinks IceConn::{send, send_rtcp, try_send} require `mandatory(conn) ==> is_srtp_output(buf)`; discharged at all six call sites (census: 3 + 1 + 2 in the non-test part of the file): with a session the buffer handed over is the one protect_rtp / protect_rtcp filled, without a session and srtp_required every path returns before its sink; the bridge uses the *target's* session and flag",
+          min_verified=6),
+        V("ingress: only authenticated packets leave the SRTP gate when srtp_required (Verus)", "srtp_ingress_gate", "quick", "proof",
+          ["RtpTransport::receive (up to the hand-over to observers, bridge and RTCP listener)"],
+          "verbatim receive() cut where demultiplexing starts; sinks try_send_with_fallback (RTCP listener), fire_ingress (observers) and try_bridge_rewrite_rtp require the packet to be the result of a successful unprotect_rtcp / unprotect_rtp when srtp_required; discharged at each call site; without a session and srtp_required the function returns first",
+          min_verified=1),
+    ],
+}
+
+# =============================================================================== C02
+PROPS["C02"] = {
+    "level": "proof",
+    "explanation": "invariant of HandshakeContext on the verbatim DTLS handshake handlers (Verus): with an expected fingerprint, session keys exist — and Connected is reachable — only after a certificate with that fingerprint was presented and (client) the ServerKeyExchange signature was verified with it. Client role proved; the server role clauses fail (open known finding: the server never authenticates the client)",
+    "trusted_base": ["ECDHE, PRF, key expansion, signature verification, certificate parsing and the message codecs are opaque callees",
+                     "fingerprint_from_der returns fp_spec(der); possession_proved(fp) is established only by the assumed contract of verify_server_key_exchange_signature (Ok => ..)",
+                     "one task's sequential reading of async fns; one let-chain read as a conjunction; Option::as_deref and String / Vec comparison through wrappers whose bodies are those expressions",
+                     "our own counters message_seq / epoch stay below 65535 (preconditions)"],
+    "kani": [],
+    "verus": [
+        V("identity gate: keys and Connected only after the expected certificate (Verus)", "dtls_identity_gate", "quick", "proof",
+          ["DtlsInner::handle_certificate", "DtlsInner::handle_server_key_exchange", "DtlsInner::handle_server_hello_done (up to the key derivation)",
+           "DtlsInner::handle_client_key_exchange", "DtlsInner::handle_finished"],
+          "inv(ctx, is_client): certificate on record has the expected fingerprint; server_key_exchange_verified => certificate on record and key possession proved for the expected fingerprint; session_keys is Some => identity established; client: session_keys is Some => server_key_exchange_verified. Each handler requires and ensures inv (role-split clauses); identity_ok (client: and possession_proved) asserted before both DtlsState::Connected constructions",
+          min_verified=5),
+    ],
+}
